@@ -286,7 +286,7 @@ void HttpMessage::readBody()
 	bool end = false;
 
 	if (hasHeader("Content-Length")) {
-		if (header("Content-Length") == "0")
+		if (size <= 0) // "0", or not a length at all: there is no body to wait for
 			return;
 	}
 	else if(!chunked)
@@ -310,6 +310,8 @@ void HttpMessage::readBody()
 			if (maxToRead == 0)
 				end = true;
 		}
+		else // never read beyond this message (the next request may already be there); if input was signalled
+			maxToRead = min(max(maxToRead, 1), size); // but nothing is available the peer has closed: the read fails and ends the loop
 		while (maxToRead > 0) {
 			bytesRead = _socket->read(buffer, min(maxToRead, (int)sizeof(buffer)));
 			if (bytesRead <= 0) {
